@@ -488,6 +488,20 @@ def _():
         """            constraint = req.pretty_constraint if req.pretty_constraint else "*"
             dep = Dependency(name, constraint, extras=req.extras)""")
 
+@fix("D41", "fix: a marker clause rebuilt from a constraint object keeps its '==' operator, so that a value beginning with 'in' (extra == \"internal\") is not read as the operator 'in'")
+def _():
+    sub("version/markers.py",
+        """        original_constraint_string = constraint_string = str(constraint)
+        self._swapped_name_value: bool = swapped_name_value
+""",
+        """        original_constraint_string = constraint_string = str(constraint)
+        if isinstance(constraint, Constraint) and constraint.operator == "==":
+            # str() of an equality omits the operator; written out, a value
+            # such as "internal" cannot be mistaken for the operator "in"
+            original_constraint_string = constraint_string = f"=={constraint.value}"
+        self._swapped_name_value: bool = swapped_name_value
+""")
+
 def main():
     id_ = sys.argv[1]
     msg, f = FIXES[id_]
